@@ -18,8 +18,11 @@ import (
 	"errors"
 	"flag"
 	"fmt"
+	"bytes"
 	"os"
+	"os/exec"
 	"runtime"
+	"runtime/debug"
 	"sort"
 	"strings"
 	"time"
@@ -798,6 +801,80 @@ func chain(v uint16, n int) [][]byte {
 	return out
 }
 
+// chainPos: n internal nodes (empty label) nested through ONE child position
+// (0 leaf -- version 1 only --, 1 left, 2 right); every other position holds a
+// nil entry.  Mirrors Decode/ProofEntries.v chain_pos.
+func chainPos(v uint16, pos, n int) [][]byte {
+	nd := &node.InternalNode{LabelBitLength: 0, Clean: true}
+	b, _ := nd.CompactMarshalBinaryV1()
+	e := append([]byte{0x01}, b...)
+	out := make([][]byte, 0, 3*n+1)
+	tail := 0
+	for i := 0; i < n; i++ {
+		out = append(out, e)
+		switch {
+		case v == 0 && pos == 2:
+			out = append(out, nil)
+		case v == 0:
+			tail++
+		case pos == 0:
+			tail += 2
+		case pos == 1:
+			out = append(out, nil)
+			tail++
+		default:
+			out = append(out, nil, nil)
+		}
+	}
+	out = append(out, nil)
+	for i := 0; i < tail; i++ {
+		out = append(out, nil)
+	}
+	return out
+}
+
+var chainPositions = [][2]int{{1, 0}, {1, 1}, {1, 2}, {0, 1}, {0, 2}} // (version, position)
+
+// proofDepthChild runs in a CHILD process with a lowered stack limit: a very
+// deep chain must be refused with the depth error long before the stack matters.
+func proofDepthChild(maxStack, v, pos, n int) {
+	debug.SetMaxStack(maxStack)
+	es := chainPos(uint16(v), pos, n)
+	var root hash.Hash
+	root.FromBytes([]byte("root"))
+	var pv syncer.ProofVerifier
+	_, err := pv.VerifyProof(context.Background(), root, &syncer.Proof{V: uint16(v), UntrustedRoot: root, Entries: es})
+	fmt.Println("child: VerifyProof returned:", err)
+}
+
+// proofDepthCheck spawns the child and classifies the outcome.
+func proofDepthCheck(v, pos, n int) string {
+	cmd := exec.Command(os.Args[0], "-mode", "proofdepth-child", "-maxstack", fmt.Sprint(32<<20), "-pdv", fmt.Sprint(v), "-pdpos", fmt.Sprint(pos), "-reads", fmt.Sprint(n), "-out", os.TempDir())
+	var buf bytes.Buffer
+	cmd.Stdout, cmd.Stderr = &buf, &buf
+	done := make(chan error, 1)
+	if err := cmd.Start(); err != nil {
+		panic(err)
+	}
+	go func() { done <- cmd.Wait() }()
+	select {
+	case <-done:
+	case <-time.After(120 * time.Second):
+		_ = cmd.Process.Kill()
+		return "child timed out (hang)"
+	}
+	o := buf.String()
+	switch {
+	case strings.Contains(o, "goroutine stack exceeds") || strings.Contains(o, "stack overflow"):
+		return "UNRECOVERABLE stack overflow (the process dies): recursion depth of the proof walk is not bounded by maxProofDepth"
+	case strings.Contains(o, "max proof depth exceeded"):
+		return ""
+	case strings.Contains(o, "child: VerifyProof returned:"):
+		return "not refused with the depth error: " + strings.TrimSpace(o[strings.Index(o, "child: VerifyProof returned:"):])
+	}
+	return "child failed: " + o[max(0, len(o)-300):]
+}
+
 func genProofCase(r *prng.R, kind string) Case {
 	v := uint16(r.Intn(2))
 	var es [][]byte
@@ -916,7 +993,9 @@ func main() {
 	mode := flag.String("mode", "model", "model | search | mux")
 	replay := flag.String("replay", "", "replay a case description (JSON file)")
 	maxStack := flag.Int("maxstack", 64<<20, "rhpstack-child: goroutine stack limit")
-	reads := flag.Int("reads", 8<<20, "rhpstack-child: number of one-byte reads")
+	reads := flag.Int("reads", 8<<20, "rhpstack-child: number of one-byte reads; proofdepth-child: chain length")
+	pdv := flag.Int("pdv", 1, "proofdepth-child: proof version")
+	pdpos := flag.Int("pdpos", 0, "proofdepth-child: nesting position")
 	flag.Parse()
 	if *out == "" {
 		fmt.Fprintln(os.Stderr, "need -out")
@@ -963,6 +1042,10 @@ func main() {
 		runConn(*seed, *n, *out, rc)
 		return
 	}
+	if *mode == "proofdepth-child" {
+		proofDepthChild(*maxStack, *pdv, *pdpos, *reads)
+		return
+	}
 	if *mode == "rhpstack-child" {
 		rhpStackChild(*maxStack, *reads)
 		return
@@ -980,7 +1063,9 @@ func runModel(seed uint64, n int, out string, rc *Case) {
 	wb := coqout.NewWriter(out, hdr, "run_case", "cout_eqb", 150)
 	sum := coqout.NewSummary("per decoder (Depth/Key/LeafNode/InternalNode.SizedUnmarshalBinary, node.UnmarshalBinary, verifyProof walk via hook, VerifyProof): 30% valid encodings made by the real marshalers (full, compact v0, compact v1), 25% length-field mutants (0, +-1, max, len, +k, 2^31, random), 15% truncations at field boundaries, 18% generic mutations (bit flips, kind bytes, splices, appended garbage), 12% random bytes; proof entry lists: random pre-order subtrees for v0/v1, chains of depth 126..200, list mutations (drop/extra/empty/kind/truncate/swap/unsupported version); encoders on random nodes. distinct = distinct (kind, input); non-trivial = the real decoder accepted the input (Ok) or the real encoder produced bytes")
 	var cases []Case
-	if rc != nil {
+	if rc != nil && rc.Kind == "proofdepth" {
+		cases = nil
+	} else if rc != nil {
 		cases = []Case{*rc}
 	} else {
 		r := prng.New(seed)
@@ -1006,6 +1091,20 @@ func runModel(seed uint64, n int, out string, rc *Case) {
 		}
 		cases = append(cases, morePrefixCases(r.Fork())...)
 		cases = append(cases, evidenceSystematic()...)
+		// chains nested through EACH child position (leaf / left / right) around and beyond the limit
+		depths := []int{127, 128, 129, 512}
+		if n >= 5000 { // thorough tier
+			depths = append(depths, 5000)
+		}
+		for _, vp := range chainPositions {
+			for _, d := range depths {
+				es := hexEntries(chainPos(uint16(vp[0]), vp[1], d))
+				cases = append(cases, Case{Kind: "walk", V: uint16(vp[0]), Entries: es, Origin: fmt.Sprintf("fixed-chainpos%d-%d", vp[1], d)})
+				if d <= 129 {
+					cases = append(cases, Case{Kind: "proof", V: uint16(vp[0]), Entries: es, Origin: fmt.Sprintf("fixed-chainpos%d-%d", vp[1], d)})
+				}
+			}
+		}
 		for i := 0; i < n; i++ {
 			rr := r.Fork()
 			k := kinds[rr.Intn(len(kinds))]
@@ -1082,6 +1181,23 @@ func runModel(seed uint64, n int, out string, rc *Case) {
 		wb.Add(o.term, map[string]any{"case": c})
 		if o.violation != "" {
 			sum.Violations = append(sum.Violations, map[string]any{"what": o.violation, "case": shrinkModel(c)})
+		}
+	}
+	// very deep chains in a child process with a 32 MiB stack limit: refused, never a crash
+	if rc == nil || rc.Kind == "proofdepth" {
+		todo := chainPositions
+		depth := 300000
+		if rc != nil {
+			todo, depth = [][2]int{{int(rc.V), rc.Mode}}, rc.NVals
+		}
+		for _, vp := range todo {
+			sum.Evaluations++
+			sum.Count("proofdepth-child", fmt.Sprintf("v%d-pos%d", vp[0], vp[1]))
+			if msg := proofDepthCheck(vp[0], vp[1], depth); msg != "" {
+				sum.Violations = append(sum.Violations, map[string]any{
+					"what": fmt.Sprintf("proof walk: version-%d proof of %d internal nodes (5-byte entries 0101000002) nested through child position %d (0 leaf, 1 left, 2 right), all other positions nil, under a 32 MiB stack limit: %s", vp[0], depth, vp[1], msg),
+					"case": Case{Kind: "proofdepth", V: uint16(vp[0]), Mode: vp[1], NVals: depth}})
+			}
 		}
 	}
 	sum.Extra["max_alloc_bytes_per_input_byte_plus_64"] = maxRatio
